@@ -81,6 +81,11 @@ static void torture(const char *mname, long long idx, int nthreads, unsigned nop
 	std::vector<Slot> xfer(NSLOTS);       // hand-off slots: release on put, acquire on take
 	std::vector<std::vector<AllocEv>> logs(nthreads);
 	std::atomic<uint64_t> corrupt{0}, nulls{0}, cross{0}, reallocs{0};
+	const bool large_heavy = (idx % 3 == 2); // every third run: mostly large blocks, so that the page accounting and the region bookkeeping run concurrently
+	// pages one slab accounts for, measured on a scratch pool of the same type (single-threaded)
+	size_t per_slab_pages = 0;
+	{ MtPolicy sp; auto *scratch = new frg::slab_pool<MtPolicy, Counting<M>>(sp); size_t before = scratch->numUsedPages(); void *q = scratch->allocate(8); per_slab_pages = scratch->numUsedPages() - before; scratch->free(q);
+	  for(auto &kv : sp.maps) munmap(kv.second.first, kv.second.second); delete scratch; }
 	std::vector<std::thread> th;
 	for(int t = 0; t < nthreads; t++) th.emplace_back([&, t] {
 		t_jit = 1000003ull * (t + 1) + idx * 7919;
@@ -97,7 +102,7 @@ static void torture(const char *mname, long long idx, int nthreads, unsigned nop
 		for(unsigned i = 0; i < nops; i++) {
 			int z = r.below(100);
 			if(z < 45 || mine.empty()) {
-				size_t n = r.pick(std::vector<size_t>{8, 8, 16, 64, 64, 64, 200, 256, 256, 300, 5000});
+				size_t n = large_heavy ? r.pick(std::vector<size_t>{8, 64, 300, 5000, 5000, 9000, 20000, 300, 4097, 70000}) : r.pick(std::vector<size_t>{8, 8, 16, 64, 64, 64, 200, 256, 256, 300, 5000});
 				void *p = pool->allocate(n);
 				uint64_t ar = ts();
 				if(!p) { nulls++; continue; }
@@ -169,6 +174,12 @@ static void torture(const char *mname, long long idx, int nthreads, unsigned nop
 	if(nulls.load()) violation(key + ":null", "allocate returned null although map() never fails");
 	if(g_policy_under_lock.load()) violation(key + ":policy-called-with-pool-lock", strf("Policy::map/unmap was entered %llu times while the calling thread held a pool mutex", (unsigned long long)g_policy_under_lock.load()));
 	if(pol.bad_unmap.load()) violation(key + ":unmap-unknown", "unmap of an unknown region");
+	// quiescent accounting: every block is freed, so only slabs remain mapped (large reservations are returned when freed) and the
+	// used-page counter must be what those slabs added - in any sequential order of the calls that were made
+	{ size_t remaining; { std::lock_guard<std::mutex> g(pol.reg_mutex); remaining = pol.maps.size(); }
+	  size_t used = pool->numUsedPages();
+	  if(used != remaining * per_slab_pages) violation(key + ":pages-drift", strf("after all threads finished and every block was freed, numUsedPages()=%zu but %zu slabs of %zu pages each remain mapped", used, remaining, per_slab_pages));
+	  count("tsan_quiescent_page_accounting_checks"); }
 	{ std::lock_guard<std::mutex> g(pol.reg_mutex); for(auto &kv : pol.maps) munmap(kv.second.first, kv.second.second); }
 	delete pool;
 	note_distinct(mix(hash_str(mode), idx * 16 + nthreads));
